@@ -26,7 +26,7 @@ SHAPES = ["constant", "linear", "alternating", "walk", "noise", "lognormal", "tw
 
 
 def gen_cases(tier, seed):
-    n = 64 if tier == "quick" else 3200
+    n = 128 if tier == "quick" else 30000
     return [{"i": i, "seed": seed} for i in range(n)]
 
 
